@@ -19,7 +19,14 @@ RULE = (
     "alternatives and 2..6 criteria, never square, no constant criterion (also after ideal-distance scaling and after ranking), "
     "positive cells for EntropyWeighter, all objective mixes, dyadic grids (with ties, integer columns declared int), arbitrary "
     "doubles and UNIT-INTERVAL data (every cell inside [0, 1] while the criteria do not each span exactly [0, 1]: ratings 0.2..0.9, "
-    "percentages / 100, k/32 grids, probabilities, compressed sub-ranges, column shares = SumScaler output, row shares); incoming "
+    "percentages / 100, k/32 grids, probabilities, compressed sub-ranges, column shares = SumScaler output, row shares); one case in "
+    "five is WHOLE-NUMBER raw data (Likert 1..5 / 1..10, scores 0..100, counts, large counts): ALL criteria integer typed (2/3; built "
+    "from nested lists of Python ints, from an int64 numpy array, or from dtypes=) or integer criteria next to non-integer float64 "
+    "ones (1/3); one case in five holds criteria with a TINY RELATIVE SPREAD (coefficient of variation 1e-4 .. 5e-3: calendar "
+    "years, prices 100000 +- 25, altitudes, base * (1 + cv * u); whole numbers or doubles), every criterion (1/2) or next to "
+    "ordinary criteria (1/2): their normalised entropies are within 1e-5 of 1 without being 1 (1 - H = 1e-9 .. 1e-5, a small "
+    "positive entropy weight); in both fifths the weighter classes are cycled so that every weighter sees them in every tier "
+    "(EqualWeighter on all-integer data with base_value / n not whole included); incoming "
     "weights: pairwise distinct, ABSENT (matrix built without weights: default all-ones), explicit ones, a uniform constant (3.5, "
     "k/8, a double), 1/n, base_value/n, b'/n for another base_value b', or partly tied - for the first and for the second incoming "
     "vector, every weighter, every parameterisation; weighters: EqualWeighter(base_value), StdWeighter, EntropyWeighter, "
@@ -36,7 +43,10 @@ RULE = (
 )
 ASSUMPTIONS = [
     "numeric agreement means |impl - exact| <= 1e-9 * scale, scale >= 1 a conditioning bound computed from the exact evaluation "
-    "(std: max|a_j|/s_j; entropy: 1/sum(1-H); CRITIC: spread/deviation ratio times sum(sigma)*n/total); generated cases keep scale <= 1e4",
+    "(std: max|a_j|/s_j; entropy: 1/sum(1-H); CRITIC: spread/deviation ratio times sum(sigma)*n/total); generated cases keep scale <= 1e4 "
+    "(EntropyWeighter on matrices whose criteria ALL have a tiny relative spread: <= 5e5, there sum(1-H) is 2e-6 .. 6e-5 by construction; "
+    "the tolerance on a weight is then still below 1e-3 of the total, so a weight of exactly 0 for a criterion that the formula gives "
+    "1e-3 of the total, and NaN weights, are findings)",
     "the published formulas are undefined (0/0) when the normalising total is zero: all criteria constant (std, entropy) or all criteria "
     "perfectly (rank-)correlated (CRITIC, e.g. [[1,2],[2,4],[3,6]] with two maximise criteria gives NaN weights); such inputs are "
     "outside the generated domain (total >= 1e-3 of its natural scale)",
@@ -49,6 +59,7 @@ TRUSTED = ["Lean Float (C libm sqrt/log) is used only to run the model next to t
 
 TOL = 1e-9
 MAX_SCALE = 1e4
+MAX_SCALE_LOWCV_ENTROPY = 5e5
 
 # ----------------------------------------------------------------------------- exact evaluation (property oracle)
 
@@ -164,6 +175,27 @@ def exact_weights(spec, A, objs):
     raise ValueError(cls)
 
 
+def _entropy_divergences(A):
+    """1 - normalised Shannon entropy of every criterion (floats, for the input histogram only)"""
+    m = len(A)
+    out = []
+    for c in _cols(A):
+        tot = sum(c, Fraction(0))
+        h = Decimal(0)
+        for x in c:
+            p = D(x / tot)
+            if p > 0:
+                h -= p * p.ln()
+        out.append(float(1 - h / D(m).ln()))
+    return out
+
+
+def _cv(col):
+    mu = sum(col) / len(col)
+    sd = math.sqrt(sum((x - mu) ** 2 for x in col) / len(col))
+    return sd / abs(mu) if mu else float("inf")
+
+
 # ----------------------------------------------------------------------------- generation
 
 
@@ -180,8 +212,11 @@ def _columns_ok(A, entropy):
     return True
 
 
-def _spec(rng):
-    cls = rng.choice(["EqualWeighter", "StdWeighter", "EntropyWeighter", "CRITIC", "CRITIC", "CRITIC"])
+SPEC_CYCLE = ["EqualWeighter", "StdWeighter", "EntropyWeighter", "CRITIC", "EqualWeighter", "EntropyWeighter", "CRITIC", "StdWeighter", "CRITIC"]
+
+
+def _spec(rng, cls=None):
+    cls = cls or rng.choice(["EqualWeighter", "StdWeighter", "EntropyWeighter", "CRITIC", "CRITIC", "CRITIC"])
     if cls == "EqualWeighter":
         how = rng.randrange(4)
         b = [1.0, rng.randint(1, 64) / 8, math.ldexp(rng.uniform(0.5, 1.0), rng.randint(-5, 8)), float(rng.randint(2, 9))][how]
@@ -234,6 +269,93 @@ def _unit_matrix(rng, m, n, positive, ties):
     return rows, kind
 
 
+INT_KINDS = ["likert5", "likert10", "score100", "counts", "big-counts", "signed"]
+
+
+def _int_matrix(rng, m, n, positive, mixed):
+    """raw whole-number data (ratings, Likert answers, scores, counts): every criterion a column of Python / numpy ints; mixed:
+    at least one criterion of whole numbers next to at least one criterion of non-integer doubles.  Returns (rows, is_int per column)"""
+    is_int = [True] * n
+    if mixed:
+        is_int = [rng.random() < 0.5 for _ in range(n)]
+        i, k = rng.sample(range(n), 2)
+        is_int[i], is_int[k] = True, False
+    cols = []
+    for j in range(n):
+        if not is_int[j]:
+            cols.append([G.value(rng, rng.choice(["dyadic", "float"]), positive) + 0.03125 for _ in range(m)])
+            continue
+        kind = rng.choice(INT_KINDS if not positive else INT_KINDS[:-1])
+        lo = 1 if positive else 0
+        if kind == "likert5":
+            col = [rng.randint(1, 5) for _ in range(m)]
+        elif kind == "likert10":
+            col = [rng.randint(lo, 10) for _ in range(m)]
+        elif kind == "score100":
+            col = [rng.randint(lo, 100) for _ in range(m)]
+        elif kind == "counts":
+            col = [rng.randint(lo, rng.choice([20, 500, 3000])) for _ in range(m)]
+        elif kind == "big-counts":
+            col = [rng.randint(1000, 10 ** rng.randint(4, 7)) for _ in range(m)]
+        else:
+            col = [rng.randint(-20, 40) for _ in range(m)]
+        cols.append([float(x) for x in col])
+    return [[cols[j][i] for j in range(n)] for i in range(m)], is_int
+
+
+LOWCV_KINDS = ["year", "price", "altitude", "generic", "generic"]
+
+
+def _lowcv_column(rng, m):
+    """a NON-constant criterion with a tiny RELATIVE spread (coefficient of variation about 1e-4 .. 5e-3): calendar years
+    2001..2020, prices 100000 +- 25, altitudes 2500 +- 12, ...; whole numbers (2/3) or doubles.  The normalised Shannon entropy of
+    such a criterion is within 1e-5 of 1 (1 - H about cv^2 / (2 ln m): 1e-9 .. 1e-5) but NOT 1: the criterion carries a small
+    positive entropy weight; its standard deviation is small next to its mean, not next to the other criteria's"""
+    kind = rng.choice(LOWCV_KINDS)
+    if kind == "year":
+        a = rng.randint(1950, 2010)
+        col = [float(rng.randint(a, a + rng.choice([8, 19, 30]))) for _ in range(m)]
+    elif kind == "price":
+        base = rng.choice([100000, 50000, 250000, 1000000, 19990])
+        h = max(3, int(base * 10 ** rng.uniform(-3.7, -2.4)))
+        col = [float(base + rng.randint(-h, h)) for _ in range(m)]
+    elif kind == "altitude":
+        base = rng.randint(1500, 8000)
+        h = max(3, int(base * 10 ** rng.uniform(-3.3, -2.2)))
+        col = [float(base + rng.randint(-h, h)) for _ in range(m)]
+    else:
+        base = 10 ** rng.uniform(-2, 6)
+        cv = 10 ** rng.uniform(-3.9, -2.3)
+        col = [base * (1 + cv * rng.uniform(-1.7, 1.7)) for _ in range(m)]
+    if kind != "generic" and rng.random() < 1 / 3:
+        col = [x + rng.choice([0.0, 0.25, 0.5, 0.1]) for x in col]  # the same quantities, not whole
+    return col
+
+
+def _lowcv_matrix(rng, m, n, positive, alone):
+    """alone: EVERY criterion has a tiny relative spread; otherwise at least one has, next to at least one ordinary criterion"""
+    low = [True] * n
+    if not alone:
+        low = [rng.random() < 0.5 for _ in range(n)]
+        i, k = rng.sample(range(n), 2)
+        low[i], low[k] = True, False
+    fam = rng.choice(["dyadic", "float"])
+    ordinary = G.matrix(rng, m, n, fam, positive, ties=rng.choice([0.0, 0.15]), dups=0.0)
+    cols = []
+    for j in range(n):
+        if low[j]:
+            col = _lowcv_column(rng, m)
+            if not positive and rng.random() < 0.15:
+                col = [-x for x in col]  # depths, debts
+            for i in range(1, m):
+                if rng.random() < 0.1:
+                    col[i] = col[rng.randrange(i)]
+        else:
+            col = [r[j] for r in ordinary]
+        cols.append(col)
+    return [[cols[j][i] for j in range(n)] for i in range(m)], low
+
+
 WEIGHT_KINDS = ["distinct", "distinct", "distinct", "absent", "ones", "const", "const", "1/n", "base/n", "otherbase/n", "partly-tied"]
 
 
@@ -264,10 +386,19 @@ def _incoming(rng, n, family, spec, kind=None):
     return kind, w
 
 
-def _in_domain(spec, A, objs):
+def _cap(spec, family):
+    """largest conditioning bound of a generated configuration.  EntropyWeighter on the tiny-relative-spread family: the bound is
+    1 / sum(1 - H) and every 1 - H is 1e-9 .. 1e-5 there BY CONSTRUCTION (that is the family), so the bound is 1e4 .. 1e6; the
+    tolerance rule itself (1e-9 * bound) is the same everywhere, and below 1e-3 of the total also at the cap"""
+    if spec["cls"] == "EntropyWeighter" and str(family).startswith("lowcv"):
+        return MAX_SCALE_LOWCV_ENTROPY
+    return MAX_SCALE
+
+
+def _in_domain(spec, A, objs, cap=None):
     """the configuration is inside the generated domain (formula defined, well conditioned, ranks of the scaled matrix stable)"""
     w, scale = exact_weights(spec, A, objs)
-    if w is None or scale > MAX_SCALE:
+    if w is None or scale > (MAX_SCALE if cap is None else cap):
         return False
     if spec["cls"] == "CRITIC" and spec["scale"]:
         cz = _cenit(A, objs)
@@ -290,7 +421,7 @@ def _other_spec(rng, spec):
     return None
 
 
-def _sequence(rng, spec, A, objs):
+def _sequence(rng, spec, A, objs, family=None):
     """follow-up evaluations on the same matrix values, in one process: other objectives (a strict, non-empty subset of the
     senses flipped), another parameterisation under both objective vectors, then the first configuration again"""
     n = len(objs)
@@ -301,20 +432,36 @@ def _sequence(rng, spec, A, objs):
         steps = [{"spec": spec, "objectives": objs2}]
         if spec2 is not None:
             steps += [{"spec": spec2, "objectives": objs2}, {"spec": spec2, "objectives": list(objs)}]
-        if all(_in_domain(st["spec"], A, st["objectives"]) for st in steps):
+        if all(_in_domain(st["spec"], A, st["objectives"], _cap(st["spec"], family)) for st in steps):
             return steps + [{"spec": spec, "objectives": list(objs)}]
     return None
 
 
-def one_case(rng, max_m=12):
-    for _ in range(200):
-        spec = _spec(rng)
+def one_case(rng, max_m=12, family=None, cls=None):
+    """family / cls: forced matrix family ("int": whole-number raw data, "lowcv": criteria with a tiny relative spread) and
+    weighter class; None = drawn"""
+    forced = family
+    sub = rng.random()  # drawn once per case: rejection (conditioning caps) must not shift the shares of the sub-families
+    for _ in range(400):
+        spec = _spec(rng, cls)
         n = rng.randint(2, 6)
         m = rng.choice([k for k in range(3, max_m + 1) if k != n])
-        family = rng.choice(["dyadic", "dyadic", "float", "unit", "unit"])
+        family = forced or rng.choice(["dyadic", "dyadic", "float", "unit", "unit"])
         positive = spec["cls"] == "EntropyWeighter" or rng.random() < 0.6
         objs = G.objectives(rng, n, rng.choice(["max", "min", "mixed", "mixed", "mixed"]))
-        if family == "unit":
+        declared, int_build = None, None
+        if family == "int":
+            mixed = sub < 1 / 3
+            rows, is_int = _int_matrix(rng, m, n, positive, mixed)
+            declared = ["int" if x else "float" for x in is_int]
+            family = "int:mixed" if mixed else "int:all"
+            # how the whole numbers reach mkdm: nested lists of Python ints / an integer numpy array / float array + dtypes=
+            int_build = rng.choice(["pyint", "npint", "dtypes"]) if not mixed else "dtypes"
+        elif family == "lowcv":
+            alone = sub < 0.5
+            rows, low = _lowcv_matrix(rng, m, n, positive, alone)
+            family = "lowcv:alone" if alone else "lowcv:mixed"
+        elif family == "unit":
             rows, ukind = _unit_matrix(rng, m, n, positive, ties=rng.choice([0.0, 0.15, 0.4]))
             if rows is None:
                 continue
@@ -331,14 +478,18 @@ def one_case(rng, max_m=12):
             continue
         A = [[C.F(x) for x in r] for r in rows]
         w, scale = exact_weights(spec, A, objs)
-        if w is None or scale > MAX_SCALE:
+        if w is None or scale > _cap(spec, family):
             continue  # formula undefined (0/0) or ill-conditioned: outside the generated domain
         if spec["cls"] == "CRITIC" and spec["scale"]:
             cz = _cenit(A, objs)
             if cz is None or not _columns_ok([[float(x) for x in r] for r in cz], False):
                 continue
         dtypes = ["int" if all(float(r[j]).is_integer() for r in rows) and rng.random() < 0.6 else "float" for j in range(n)]
-        seq = _sequence(rng, spec, A, objs)
+        if declared is not None:
+            dtypes = declared
+        elif family.startswith("lowcv") and rng.random() < 0.4:  # every whole-number criterion declared int
+            dtypes = ["int" if all(float(r[j]).is_integer() for r in rows) else "float" for j in range(n)]
+        seq = _sequence(rng, spec, A, objs, family)
         if seq is None:
             continue
         wk1, w1 = _incoming(rng, n, family, spec)
@@ -357,15 +508,27 @@ def one_case(rng, max_m=12):
             "kind": "weigh", "spec": spec,
             "dm": {"matrix": rows, "objectives": objs, "weights": w1 if w1 is not None else [1.0] * n, "no_weights": w1 is None,
                    "weights_kind": wk1, "weights2_kind": wk2, "alternatives": G.labels(rng, G.LABEL_POOL_ALT, m),
-                   "criteria": G.labels(rng, G.LABEL_POOL_CRIT, n), "dtypes": dtypes, "family": family},
+                   "criteria": G.labels(rng, G.LABEL_POOL_CRIT, n), "dtypes": dtypes, "family": family,
+                   **({"int_build": int_build} if int_build else {})},
             "row_perm": rp, "col_perm": cp, "weights2": w2, "seq": seq,
         }
     raise RuntimeError("generator could not produce an in-domain case")
 
 
 def gen(ctx):
+    """two cases in five are forced: whole-number raw data (ALL criteria integer typed 2/3, int next to float 1/3) and criteria
+    with a tiny relative spread (alone 1/2, next to ordinary criteria 1/2), each with the weighter classes cycled so that every
+    weighter sees both in every tier"""
     rng = ctx.rng
-    return [one_case(rng, max_m=ctx.n(10, 14)) for _ in range(ctx.n(300, 5000))]
+    cases, k = [], 0
+    for i in range(ctx.n(300, 5000)):
+        forced = {3: "int", 4: "lowcv"}.get(i % 5)
+        if forced:
+            cases.append(one_case(rng, max_m=ctx.n(10, 14), family=forced, cls=SPEC_CYCLE[(k // 2) % len(SPEC_CYCLE)]))
+            k += 1
+        else:
+            cases.append(one_case(rng, max_m=ctx.n(10, 14)))
+    return cases
 
 
 # ----------------------------------------------------------------------------- implementation side
@@ -381,6 +544,20 @@ def _mk(dm, rows=None, cols=None, weights=None):
     w = dm["weights"] if weights is None else weights
     mat = np.array([[dm["matrix"][i][j] for j in cols] for i in rows], dtype=float)
     dts = dm.get("dtypes") or ["float"] * n
+    build = dm.get("int_build")
+    if build in ("pyint", "npint") and all(t == "int" for t in dts):
+        # raw whole-number data as the user holds it: nested lists of Python ints / an integer numpy array, no dtypes= given
+        ints = [[int(dm["matrix"][i][j]) for j in cols] for i in rows]
+        with warnings.catch_warnings():
+            warnings.simplefilter("ignore")
+            out = skc.mkdm(
+                ints if build == "pyint" else np.array(ints, dtype=np.int64), [dm["objectives"][j] for j in cols],
+                weights=None if absent else np.array([w[j] for j in cols], dtype=float),
+                alternatives=[dm["alternatives"][i] for i in rows], criteria=[dm["criteria"][j] for j in cols],
+            )
+        if not all(np.issubdtype(t, np.integer) for t in out.dtypes.to_numpy()):
+            raise AssertionError("whole-number data did not give integer-typed criteria")
+        return out
     with warnings.catch_warnings():
         warnings.simplefilter("ignore")
         return skc.mkdm(
@@ -665,6 +842,20 @@ def tags(case, obs):
         t.append("ties-in-a-criterion")
     if "int" in d["dtypes"]:
         t.append("int-dtype-criterion")
+    if all(x == "int" for x in d["dtypes"]):
+        t.append("ALL-criteria-int-dtype:" + d.get("int_build", "dtypes"))
+        if spec["cls"] == "EqualWeighter" and not (C.F(spec["base_value"]) / len(o)).denominator == 1:
+            t.append("ALL-int+EqualWeighter-base/n-not-whole")
+    elif "int" in d["dtypes"]:
+        t.append("mixed-int-float-dtypes")
+    if not obs.get("err") and spec["cls"] == "EntropyWeighter":
+        hs = _entropy_divergences([[C.F(x) for x in r] for r in d["matrix"]])
+        k = sum(1 for h in hs if h < 1e-5)
+        if k:
+            t.append("entropy:1-H<1e-5:" + ("all-criteria" if k == len(hs) else "some-criteria"))
+    cvs = [_cv(c) for c in _cols(d["matrix"])]
+    if any(cv < 5e-3 for cv in cvs):
+        t.append("tiny-relative-spread:" + ("all-criteria" if all(cv < 5e-3 for cv in cvs) else "some-criteria"))
     t.append("incoming-weights:" + d.get("weights_kind", "distinct"))
     t.append("second-incoming-weights:" + d.get("weights2_kind", "distinct"))
     if all(0.0 <= x <= 1.0 for r in d["matrix"] for x in r):
